@@ -515,8 +515,7 @@ class Interp:
         return ctx.cfn(g, ca)
 
 
-class BudgetExceeded(Exception):
-    pass
+from .poly import BudgetExceeded  # noqa: E402  (single definition shared with the value domain)
 
 
 # ---------------------------------------------------------------------------
